@@ -13,4 +13,6 @@ Extraction "c12b_model.ml" conv_anchor
   gf_numglyphs M_glyf_widths M_glyf_widths_pdf M_glyf_glyph_width M_glyf_glyph_width_pdf
   M_glyf_glyph_name M_glyf_fixed_pitch M_glyf_glyph_bbox M_glyf_glyph_bboxes M_glyf_glyph_height
   M_glyf_font_bbox M_glyf_glyph_bbox_pdf M_glyf_font_bbox_pdf glyf_glyph_bbox_pdf_mag
-  M_cff_derived M_glyf_derived M_hmtx_columns M_read_height Qmaxb.
+  M_cff_derived M_glyf_derived M_hmtx_columns M_read_height Qmaxb
+  M_cfont_widths M_cfont_widths_pdf M_cfont_widths_map_pdf M_cfont_glyph_width_pdf M_cfont_font_bbox_pdf
+  M_outlines_bbox M_builtin_encoding M_clone st_assign st_write_elem cfont_observe.
